@@ -162,17 +162,41 @@ theorem padAlign_length (d : Bytes) (a : Nat) (ha : 0 < a) : (padAlign d a).leng
 theorem padAlign_take (d : Bytes) (a : Nat) : (padAlign d a).take d.length = d := by
   simp [padAlign]
 
-/-! ### closed forms of the generated arithmetic -/
+/-! ### closed forms of the generated arithmetic
 
-/-- closes goals about the translated Python arithmetic: floor division / modulo by positive literals on non-negative
-    operands become `/`, `%`, then linear arithmetic (robust against rewrites of the source that stay in this fragment) -/
-macro "py_arith" : tactic =>
-  `(tactic| (simp (disch := omega) only [pyMod, pyFloorDiv, Int.fdiv_eq_ediv_of_nonneg, Int.fmod_eq_emod_of_nonneg] <;> omega))
+The generated functions (`Generated/HabFuns.lean`) are re-translated from the current source on every run, so the SHAPE of their
+bodies (which arithmetic identity is used for an alignment, `if`/`else` against early return, temporaries, `divmod`) is not
+fixed.  Every bridge lemma below therefore states `generated args = closed form` and proves it with `py_eval`, which normalises
+both sides (Python floor division / modulo on non-negative operands become `/`, `%`; Boolean tests become propositions; every
+`if`/`match` of either side is split) and closes each branch with linear arithmetic.  No lemma names or rewrites a pattern of
+the generated body. -/
+
+/-- see the section comment -/
+macro "py_eval" : tactic =>
+  `(tactic| (
+      (try simp (disch := omega) only [pyMod, pyFloorDiv, Int.fdiv_eq_ediv_of_nonneg, Int.fmod_eq_emod_of_nonneg,
+        bne_iff_ne, ne_eq, ite_not, beq_iff_eq, decide_eq_true_eq, Bool.and_eq_true, Bool.or_eq_true, Bool.not_eq_true',
+        gt_iff_lt, ge_iff_le]) <;>
+      (repeat' split) <;>
+      (try simp only [natOf, boolOf, Except.ok.injEq, reduceCtorEq]) <;>
+      first
+        | done
+        | rfl
+        | omega
+        | (exfalso; omega)
+        | (simp_all (config := { decide := true }) <;> omega)))
 
 theorem alignOffset_nat (n : Nat) : HabFuns.alignOffset (n : Int) = .ok ((csfAbs n : Nat) : Int) := by
   unfold HabFuns.alignOffset csfAbs
-  refine congrArg Except.ok ?_
-  first | py_arith | omega
+  py_eval
+
+theorem alignOffset_int (x : Int) (hx : 0 ≤ x) : HabFuns.alignOffset x = .ok ((csfAbs x.toNat : Nat) : Int) := by
+  have := alignOffset_nat x.toNat
+  rwa [Int.toNat_of_nonneg hx] at this
+
+/-- `py_eval` for bodies that call `alignOffset` (on any non-negative argument expression) -/
+macro "py_eval_align" : tactic =>
+  `(tactic| ((try simp (disch := omega) only [alignOffset_int, ← Int.natCast_add, Int.toNat_natCast]) <;> py_eval))
 
 theorem csfAbs_gt (n : Nat) : n < csfAbs n := by
   unfold csfAbs
@@ -185,91 +209,64 @@ theorem csfAbs_mod (n : Nat) : csfAbs n % 4096 = 0 := by unfold csfAbs; exact Na
 
 theorem csfOffsetN_eq (ils n ivtOff : Nat) : csfOffsetN ils n ivtOff = csfAbs (ils + n) - ivtOff := by
   unfold csfOffsetN HabFuns.csfOffset
-  have : ((ils : Int) + (n : Int)) = ((ils + n : Nat) : Int) := by norm_cast
-  simp only [this, alignOffset_nat, natOf]
-  omega
+  py_eval_align
 
 theorem appOffsetN_eq (ils ivtOff : Nat) : appOffsetN ils ivtOff = ils - ivtOff := by
-  unfold appOffsetN HabFuns.appOffset natOf; simp only []; omega
+  unfold appOffsetN HabFuns.appOffset; py_eval
 
 theorem ivtSelfN_eq (start ivtOff : Nat) : ivtSelfN start ivtOff = start + ivtOff := by
-  unfold ivtSelfN HabFuns.ivtSelfAddress natOf; simp only []; omega
+  unfold ivtSelfN HabFuns.ivtSelfAddress; py_eval
 
 theorem ivtBdtN_eq (self : Nat) : ivtBdtN self = self + 32 := by
-  unfold ivtBdtN HabFuns.ivtBdtAddress natOf Spec.ivtSize; simp only []; omega
+  unfold ivtBdtN HabFuns.ivtBdtAddress Spec.ivtSize; py_eval
 
 theorem ivtDcdN_eq (self : Nat) : ivtDcdN self = self + 64 := by
-  unfold ivtDcdN HabFuns.ivtDcdAddress natOf; simp only []; omega
+  unfold ivtDcdN HabFuns.ivtDcdAddress; py_eval
 
 theorem bdtSegOffN_eq : bdtSegOffN = 32 := by
-  unfold bdtSegOffN HabFuns.bdtSegOffset natOf; simp only []; omega
+  unfold bdtSegOffN HabFuns.bdtSegOffset; py_eval
 
 theorem dcdSegOffN_eq : dcdSegOffN = 64 := by
-  unfold dcdSegOffN HabFuns.dcdSegOffset natOf; simp only []; omega
+  unfold dcdSegOffN HabFuns.dcdSegOffset; py_eval
 
 theorem bdtLenN_eq (a b c : Nat) : bdtLenN a b c = a + b + c := by
-  unfold bdtLenN HabFuns.bdtAppLength natOf; simp only []; omega
+  unfold bdtLenN HabFuns.bdtAppLength; py_eval
 
 theorem blockBaseN_eq (s i o : Nat) : blockBaseN s i o = s + i + o := by
-  unfold blockBaseN HabFuns.blockBase natOf; simp only []; omega
+  unfold blockBaseN HabFuns.blockBase; py_eval
 
 theorem blockStartN_eq (i o : Nat) : blockStartN i o = i + o := by
-  unfold blockStartN HabFuns.blockStart natOf; simp only []; omega
+  unfold blockStartN HabFuns.blockStart; py_eval
 
 theorem signedPrefixN_eq (i o : Nat) : signedPrefixN i o = i + o := by
-  unfold signedPrefixN HabFuns.signedPrefixLen natOf; simp only []; omega
+  unfold signedPrefixN HabFuns.signedPrefixLen; py_eval
 
-/-- the three flag values the builder is used with (`0` plain, `0x08` authenticated, `0x0C` encrypted) -/
+/-- the three flag values the builder is used with (`0` plain, `0x08` authenticated, `0x0C` encrypted); closed terms, evaluated -/
 theorem flags_cases (f : Nat) (h : f = 0 ∨ f = 8 ∨ f = 12) :
     isAuth f = (f != 0) ∧ isEnc f = (f == 12) ∧ appAligned f = (f != 0) ∧ bdtEndIsCsf f = (f != 0) := by
-  rcases h with h | h | h <;> subst h <;> refine ⟨?_, ?_, ?_, ?_⟩ <;> rfl
+  rcases h with h | h | h <;> subst h <;> refine ⟨?_, ?_, ?_, ?_⟩ <;> decide
 
 theorem ivtCsfN_eq (flags ils n ivtOff self : Nat) (h : flags = 0 ∨ flags = 8 ∨ flags = 12) (hi : ivtOff ≤ csfAbs (ils + n)) :
     ivtCsfN flags ils n ivtOff self = if flags = 0 then 0 else self + (csfAbs (ils + n) - ivtOff) := by
-  unfold ivtCsfN HabFuns.ivtCsfAddress
-  have e : ((ils : Int) + (n : Int)) = ((ils + n : Nat) : Int) := by omega
-  have c0 : (pyShr ((0 : Nat) : Int) 3 != 0) = false := by rfl
-  have c8 : (pyShr ((8 : Nat) : Int) 3 != 0) = true := by rfl
-  have c12 : (pyShr ((12 : Nat) : Int) 3 != 0) = true := by rfl
-  rcases h with h | h | h <;> subst h
-  · simp only [c0]; rfl
-  · simp only [c8, e, alignOffset_nat, natOf, ↓reduceIte]
-    simp; omega
-  · simp only [c12, e, alignOffset_nat, natOf, ↓reduceIte]
-    simp; omega
+  rcases h with h | h | h <;> subst h <;> unfold ivtCsfN HabFuns.ivtCsfAddress <;> py_eval_align
 
 theorem secretKeyLocN_eq (ils n start : Nat) : secretKeyLocN ils n start = start + csfAbs (ils + n) + 0x2000 := by
-  have : HabFuns.secretKeyLocation ils n start = .ok (((start + csfAbs (ils + n) + 0x2000 : Nat)) : Int) := by
-    unfold HabFuns.secretKeyLocation csfAbs
-    refine congrArg Except.ok ?_
-    first | py_arith | omega
-  unfold secretKeyLocN
-  rw [this]
-  simp only [natOf]
-  omega
+  unfold secretKeyLocN HabFuns.secretKeyLocation csfAbs
+  py_eval_align
 
 theorem nonceLenN_cases (n : Nat) :
     nonceLenN n = if n < 65536 then 13 else if n < 16777216 then 12 else 11 := by
   unfold nonceLenN HabFuns.aeadNonceLen
-  split <;> rename_i h1
-  · have : n < 65536 := by (simp at h1; omega)
-    simp only [this, natOf, ↓reduceIte]; omega
-  · split <;> rename_i h2
-    · have a : ¬ n < 65536 := by (simp at h1; omega)
-      have b : n < 16777216 := by (simp at h2; omega)
-      simp only [a, b, natOf, ↓reduceIte]; omega
-    · have a : ¬ n < 65536 := by (simp at h1; omega)
-      have b : ¬ n < 16777216 := by (simp at h2; omega)
-      simp only [a, b, natOf, ↓reduceIte]; omega
+  py_eval
+
+theorem macLenSet_eq (n : Nat) :
+    HabFuns.macLenSet (n : Int) = if 4 ≤ n ∧ n ≤ 16 ∧ n % 2 = 0 then .ok (n : Int) else .error .spsdk := by
+  unfold HabFuns.macLenSet
+  py_eval
 
 theorem macLenOk_iff (n : Nat) : macLenOk n = true ↔ 4 ≤ n ∧ n ≤ 16 ∧ n % 2 = 0 := by
-  unfold macLenOk HabFuns.macLenSet pyMod
-  have h1 : Int.fmod (n : Int) 2 = (n : Int) % 2 := Int.fmod_eq_emod_of_nonneg _ (by omega)
-  rw [h1]
-  by_cases hc : ((n : Int) < 4 ∨ 16 < (n : Int)) ∨ ¬ (n : Int) % 2 = 0
-  · have : ¬ (4 ≤ n ∧ n ≤ 16 ∧ n % 2 = 0) := by omega
-    simp [hc, this]
-  · have : (4 ≤ n ∧ n ≤ 16 ∧ n % 2 = 0) := by omega
-    simp [hc, this]
+  unfold macLenOk
+  rw [macLenSet_eq]
+  by_cases h : 4 ≤ n ∧ n ≤ 16 ∧ n % 2 = 0 <;> simp [h]
 
 end SpsdkVerif.Hab
